@@ -1181,7 +1181,9 @@ def _source_N(pdf, source, wide):
         return dx.from_array(pdf.to_numpy(), chunksize=5, columns=list(pdf.columns))
     if source == "from_dict":
         return dx.from_dict({c: pdf[c].tolist() for c in pdf.columns}, npartitions=3)
-    d = os.path.join(_tmpdir(), f"{source}-{int(wide)}")
+    import zlib
+
+    d = os.path.join(_tmpdir(), f"{source}-{int(wide)}-{zlib.crc32(repr(list(pdf.columns)).encode()):08x}")
     if source == "read_csv":
         if not os.path.exists(d + ".csv"):
             pdf.to_csv(d + ".csv", index=False)
@@ -1204,6 +1206,12 @@ def _envs(wide, source="pandas"):
     key = (wide, source)
     if key not in _ENVS:
         t = _tables(wide)
+        if source.endswith("_unsorted"):
+            # the reader's own column order is NOT the sorted order of the labels (seeded change C01-m4: the columns
+            # operand pushed into a reader took the order of determine_column_projection)
+            t = dict(t)
+            cols = list(t["N"].columns)
+            t["N"] = t["N"][cols[::-1][1:] + [cols[-1]]]
         if source != "from_map":
             d = {"L": dx.from_pandas(t["L"], npartitions=3, sort=False), "R": dx.from_pandas(t["R"], npartitions=2, sort=False),
                  "L1": dx.from_pandas(t["L"], npartitions=1, sort=False)}
@@ -1213,7 +1221,7 @@ def _envs(wide, source="pandas"):
                 return dx.from_map(_ColReader(parts), list(range(len(parts))), meta=pdf.iloc[:0])
 
             d = {"L": mk(t["L"], [0, 3, 6, 8]), "R": mk(t["R"], [0, 2, 6]), "L1": mk(t["L"], [0, 8])}
-        d["N"] = _source_N(t["N"], source, wide)
+        d["N"] = _source_N(t["N"], source.replace("_unsorted", ""), wide)
         _ENVS[key] = (t | {"L1": t["L"]}, d)
     return _ENVS[key]
 
@@ -1600,6 +1608,11 @@ CORPUS = [
     {"prog": "apply_rowwise_cross", "term": "sel", "sel": "b"},
     {"prog": "apply_rowwise_cross", "term": "shared_add", "sel": ["a"], "aux": "ab"},
     {"prog": "map_partitions_cross", "term": "sel", "sel": ["b"]},
+    {"prog": "src", "term": "sel", "sel": ["e", "b"], "source": "from_array_unsorted"},
+    {"prog": "src", "term": "sel", "sel": ["b", "d", "e"], "source": "from_array_unsorted"},
+    {"prog": "src", "term": "shared_add", "sel": ["c", "b"], "aux": "e", "source": "from_array_unsorted"},
+    {"prog": "src", "term": "sel", "sel": ["e", "b"], "source": "from_map_unsorted"},
+    {"prog": "src", "term": "sel", "sel": ["b", "e"], "source": "read_parquet_unsorted"},
     {"prog": "src", "term": "sel", "sel": ["c"], "source": "from_array"},
     {"prog": "src", "term": "sel", "sel": "d", "source": "from_array"},
     {"prog": "src", "term": "sel", "sel": ["e", "b"], "source": "from_array"},
